@@ -135,7 +135,7 @@ def main():
     cov['explanation'] = cfg.get('explanation', '')
     cov['proved_clauses'] = cfg.get('proved', [])
     cov['bounded_clauses'] = cfg.get('bounded', [])
-    cov['trusted_base'] += cfg.get('trusted', [])
+    cov['trusted_base'] += cfg.get('trusted', []) + cfg.get('trusted_extra', [])
     ev['assumptions'] = cfg.get('assumptions', []) + props.ASSUMPTIONS_COMMON
     # ---------------- verdict
     out_lines = []
